@@ -23,6 +23,8 @@ DOCUMENTED = {
 }
 OPT_EVENTS = {"constructed", "eval_begin", "eval_ok", "opt_returned", "opt_exception", "initial_parameter_error", "fallback",
               "result_calc_begin", "result_calc_ok", "result", "walk_fail"}
+# events of other hooks (registry, save protocol, result registry, data / matrix providers) are not steps of Optimizer.tla
+FOREIGN = {"register", "set", "lookup", "protect", "save_begin", "save_end", "save_error", "run_created", "latest_lookup", "aligned", "prepared", "stacked"}
 BLANK = {"ev": "", "x": 0, "pen": 0, "nh": 0, "lp": 9, "lc": 9, "lr": 9, "i": 0, "restored": True, "success": False,
          "reasonerr": False, "snapok": True, "exc": "none", "kind": ""}
 
@@ -300,7 +302,7 @@ def split_runs(events: list[dict]) -> list[list[dict]]:
     """Driver traces: events between call_begin and call_end (one optimize() / one walk each), per process."""
     runs, cur = [], {}
     for e in events:
-        if e["ev"] in ("register", "set", "lookup"):
+        if e["ev"] in FOREIGN:
             continue
         pid = e["pid"]
         if e["ev"] == "call_begin":
